@@ -27,6 +27,23 @@ FUNCS = {
 }
 
 
+class Mat:
+    """an operand that only knows how to matrix-multiply with plain integers (anything else is left to the other operand)"""
+
+    def __init__(self, v):
+        self.v = v
+
+    def __matmul__(self, o):
+        if isinstance(o, int) and not isinstance(o, bool):
+            return self.v * o
+        return NotImplemented
+
+    def __rmatmul__(self, o):
+        if isinstance(o, int) and not isinstance(o, bool):
+            return o * self.v + 1
+        return NotImplemented
+
+
 class Raised(Exception):
     def __init__(self, cls):
         self.cls = cls
@@ -85,6 +102,10 @@ def _ev(nodes, inputs, d, memo):
         return FUNCS[d['f']](A(d['a']), *[A(x) for x in d['args']])
     if n == 'bindk':
         return FUNCS['addk'](x=A(d['a']), k=A(d['k']))
+    if n == 'matmul':
+        return (Mat(d['k']) @ A(d['a'])) if d['refl'] else (A(d['a']) @ Mat(d['k']))
+    if n == 'pow3':
+        return pow(A(d['a']), d['e'], d['m'])
     if n == 'where':
         return A(d['x']) if A(d['c']) else A(d['y'])
     if n == 'help':
@@ -242,7 +263,7 @@ class RxWorld:
                     return {'input': rng.choice(cands)}
             return {'const': {'int': rng.choice([1, 2, 3, 4]), 'str': rng.choice(['ab', 'z']), 'list': [1, 2], 'bool': True,
                               'dict': {'a': 1}}.get(t, 1)}
-        kind = weighted(rng, [('bin', 6), ('cmp', 2), ('un', 2), ('idx', 2), ('slice', 1), ('meth', 2), ('attr', 0.7), ('pipe', 2), ('bindk', 1),
+        kind = weighted(rng, [('bin', 6), ('cmp', 2), ('un', 2), ('idx', 2), ('slice', 1), ('meth', 2), ('attr', 0.7), ('pipe', 2), ('bindk', 1), ('matmul', 0.7), ('pow3', 0.5),
                               ('where', 2), ('help', 4), ('strbin', 1), ('listbin', 1)])
         if kind == 'bin':
             op = rng.choice(sorted(BIN_INT))
@@ -313,6 +334,13 @@ class RxWorld:
             if a is None:
                 return None
             return {'n': 'attr', 'a': a, 'm': rng.choice(['real', 'imag', 'numerator']), 't': 'int'}
+        if kind in ('matmul', 'pow3'):
+            a = pick('int')
+            if a is None:
+                return None
+            if kind == 'matmul':
+                return {'n': 'matmul', 'a': a, 'k': rng.choice([2, 3]), 'refl': rng.random() < 0.5, 't': 'int'}
+            return {'n': 'pow3', 'a': a, 'e': rng.choice([2, 3]), 'm': rng.choice([5, 7]), 't': 'int'}
         if kind == 'bindk':
             a, k_ = pick('int'), operand('int')
             if a is None:
@@ -521,6 +549,10 @@ class RxWorld:
                     e = getattr(B(d['a']), d['m'])
                 elif n == 'pipe':
                     e = B(d['a']).rx.pipe(FUNCS[d['f']], *[B(x) for x in d['args']])
+                elif n == 'matmul':
+                    e = (Mat(d['k']) @ B(d['a'])) if d['refl'] else (B(d['a']) @ Mat(d['k']))
+                elif n == 'pow3':
+                    e = pow(B(d['a']), d['e'], d['m'])
                 elif n == 'bindk':
                     # a function bound by keyword to whole expressions, used as the root of a new expression
                     e = param.rx(param.bind(FUNCS['addk'], x=B(d['a']), k=B(d['k'])))
